@@ -4,7 +4,6 @@ Emit(S) == ndJsonSerialize(IOEnv.OUT_FILE, SetToSeq(S)) /\ (TRUE \/ last = "")
 Fits == { c \in SlerpCases : (c.b - c.a) <= MaxGap + 1 /\ (c.a - c.b) <= MaxGap + 1 }
 EmitSlerp == Emit(Fits)
 (* the transition table of the initial states, for forward replay *)
-SNsg(s, m) == LET s1 == RJ(s, m) IN [ i \in Rows |-> IF m[i] THEN s1[LeftValid(m, i)] ELSE s1[i] ]
 Table == { [kind |-> "array", sg |-> s, nn |-> m, rj |-> RJ(s, m), sn |-> SNsg(s, m)]
            : s \in [Rows -> {1, -1}], m \in { mm \in [Rows -> BOOLEAN] : ~mm[1] /\ ~mm[N] /\ RunsOK(mm) } }
 EmitAll == Emit(Fits \cup Table)
